@@ -102,7 +102,7 @@ claim(
     "global ordered index symbolic, and modifies no counter and not the global index [K-bnd in the number of patterns]; since the "
     "counters are symbolic and absent from the postcondition, 'no matter how often matched before' follows.  eval_dyn bumps exactly the "
     "selected pattern's counter [K-bnd, thorough].  CallCounter::fetch_add returns old, stores old+1 [K-full].  MockAssembler::push "
-    "appends in clause order [K-full per case], Each::call/deconstruct keep call order [K-bnd].  Lemmas: first_match_is_statement, "
+    "appends in clause order and leaves other methods alone [V, all map states; K-full for the vacant path], finish hands the lists over unchanged [V, K-full], Each::call/deconstruct keep call order [K-bnd].  Lemmas: first_match_is_statement, "
     "history_independence [V].",
     trusted=["BTreeMap<TypeId,_>::get returns only the entry of that key (std; unreachable for Kani: TypeId ordering)", "harnesses build the no_std+spin-lock feature set; the functions under contract contain no cfg"],
 )
@@ -111,7 +111,9 @@ claim(
     "C14",
     "Contracts: each tuple Clause impl (arity 2..16) deconstructs its elements in index order, each exactly once, stopping at the "
     "first Err, which is returned [K-full x 15]; MockAssembler::push rejects a second clause of the other mode for the same method in "
-    "either order and appends nothing, rejects a builder carrying a responder error, appends otherwise [K-full]; Each::deconstruct "
+    "either order and appends nothing, appends after the existing patterns otherwise, registers [p] for a new method, rejects a "
+    "builder carrying a responder error, never touches other methods [V: verbatim push over a BTreeMap entry stand-in with assumed "
+    "std contracts; K-full for the vacant and responder-error paths]; Each::deconstruct "
     "rejects a stub without patterns [K-full]; lemma nesting_is_flattening: any nesting of tuples is the left-to-right list of its "
     "terminal clauses [V].",
     trusted=["'at any distance' rests on the BTreeMap keyed by TypeId (std)", "the compile-time rejections (type-state) are rustc's obligation, no runtime contract exists"],
@@ -170,5 +172,5 @@ claim(
     "method registers exactly that pattern, finish hands the lists over unchanged [K-full]; the first-match scan depends only on the "
     "called method's own list [K-bnd, shared with C01]; lemma commuting_clauses over those contracts: swapping two adjacent clauses "
     "of different methods, not both ordered, changes no method's pattern list and no ordered range [V].",
-    trusted=["map semantics of BTreeMap keyed by TypeId (std); distinct generic instantiations have distinct TypeIds (language)", "eval reads a Unimock only through shared_state (reviewed; not an obligation)", "the occupied-entry path of MockAssembler::push is not covered (see C14)"],
+    trusted=["map semantics of BTreeMap keyed by TypeId (std); distinct generic instantiations have distinct TypeIds (language)", "eval reads a Unimock only through shared_state (reviewed; not an obligation)", "the std BTreeMap entry API is a stand-in with assumed contracts in Tier V (CBMC cannot reach the occupied-entry path)"],
 )
